@@ -823,9 +823,24 @@ KNOWN_REPLAYS = [
 ]
 
 
+def run_case_retry(chk, xvc, name, case):
+    """a process that hits the hard per-process timeout (xvcbin.XVC_TIMEOUT; seen under machine load ~100 for a command
+    that takes 0.2 s) is not an outcome that can be compared between directories: the case is run once more; only a
+    timeout that reproduces in the second run is kept (a hang from the subdirectory only WOULD be a difference)"""
+    r = run_case(chk, xvc, name, case)
+    timed_out = sorted(k for k, v in r['runs'].items() if v['rc'] == 124)
+    if timed_out:
+        chk.count('timeout-in-one-run-case-rerun:' + case['family'])
+        chk.notes.append(f"timeout (exit 124) in form(s) {timed_out} of {json.dumps(case)}; case re-run")
+        r = run_case(chk, xvc, name + 'r', case)
+        if any(v['rc'] == 124 for v in r['runs'].values()):
+            chk.count('timeout-reproduced:' + case['family'])
+    return r
+
+
 def run_cases(chk, xvc, cases, tag):
     with concurrent.futures.ThreadPoolExecutor(max_workers=WORKERS) as ex:
-        futs = [ex.submit(run_case, chk, xvc, f'{tag}{i}', c) for i, c in enumerate(cases)]
+        futs = [ex.submit(run_case_retry, chk, xvc, f'{tag}{i}', c) for i, c in enumerate(cases)]
         return [f.result() for f in futs]
 
 
